@@ -210,6 +210,12 @@ pub struct Program<'p> {
     identity_func: GcView<FuncData<'p>>,
     ext_vars: FHashMap<InternedStr<'p>, GcView<ThunkData<'p>>>,
     native_funcs: FHashMap<InternedStr<'p>, GcView<FuncData<'p>>>,
+    #[cfg(feature = "verif-hooks")]
+    verif_gc_period: Option<usize>,
+    #[cfg(feature = "verif-hooks")]
+    verif_gc_tick: usize,
+    #[cfg(feature = "verif-hooks")]
+    verif_gc_runs: usize,
 }
 
 struct Exprs<'p> {
@@ -261,6 +267,12 @@ impl<'p> Program<'p> {
             identity_func,
             ext_vars: FHashMap::default(),
             native_funcs: FHashMap::default(),
+            #[cfg(feature = "verif-hooks")]
+            verif_gc_period: None,
+            #[cfg(feature = "verif-hooks")]
+            verif_gc_tick: 0,
+            #[cfg(feature = "verif-hooks")]
+            verif_gc_runs: 0,
         };
         this.load_stdlib(stdlib_span_ctx);
         this
@@ -294,10 +306,40 @@ impl<'p> Program<'p> {
 
     /// Runs garbage collection under certain conditions.
     pub fn maybe_gc(&mut self) {
+        #[cfg(feature = "verif-hooks")]
+        if let Some(period) = self.verif_gc_period {
+            // Scheduled collection: `0` = never, `n` = on every n-th call.
+            self.verif_gc_tick += 1;
+            if period != 0 && self.verif_gc_tick % period == 0 {
+                self.verif_gc_runs += 1;
+                self.gc();
+            }
+            return;
+        }
         let num_objects = self.gc_ctx.num_objects();
         if num_objects > 1000 && (num_objects / 2) > self.objs_after_last_gc {
             self.gc();
         }
+    }
+
+    /// Verification hook: replace the collection heuristic of
+    /// [`Program::maybe_gc`] by a fixed schedule (`0` = never collect,
+    /// `n` = collect on every n-th call).
+    #[cfg(feature = "verif-hooks")]
+    pub fn verif_set_gc_period(&mut self, period: usize) {
+        self.verif_gc_period = Some(period);
+    }
+
+    /// Verification hook: number of objects currently tracked by the collector.
+    #[cfg(feature = "verif-hooks")]
+    pub fn verif_num_objects(&self) -> usize {
+        self.gc_ctx.num_objects()
+    }
+
+    /// Verification hook: number of scheduled collections run so far.
+    #[cfg(feature = "verif-hooks")]
+    pub fn verif_gc_runs(&self) -> usize {
+        self.verif_gc_runs
     }
 
     /// Sets the maximum call stack size.
